@@ -9,7 +9,7 @@ import (
 	"verif/checker/ssax"
 )
 
-func init() { Registry["C11"] = Spec{Run: runC11} }
+func init() { Registry["C11"] = Spec{Run: runC11, Packages: []string{"cache"}} }
 
 // reuseAfterRehash implements R3: the early "already present" exit of the
 // data-file copy is gated by size equality and a re-hash of the existing file.
